@@ -32,13 +32,16 @@ class HarnessError(Exception):
 class Res:
     """oracle result for a case on which the property held"""
 
-    __slots__ = ("nontrivial", "classes", "evals", "digests")
+    __slots__ = ("nontrivial", "classes", "evals", "digests", "count")
 
-    def __init__(self, nontrivial=False, classes=(), evals=1, digests=None):
+    def __init__(self, nontrivial=False, classes=(), evals=1, digests=None, count=None):
         self.nontrivial = nontrivial
         self.classes = tuple(classes)
         self.evals = evals  # oracle evaluations performed inside this case
         self.digests = digests  # optional list of digests of distinct non-trivial sub-cases
+        # optional: number of non-trivial sub-cases inside this case that are distinct by construction (enumerations);
+        # counted once per distinct case (cases are de-duplicated by digest), so no per-sub-case digest has to be kept
+        self.count = count
 
 
 class Sub:
@@ -123,6 +126,7 @@ class ShardResult:
         self.evals = 0
         self.cases = 0
         self.nontrivial = set()
+        self.case_counts = {}
         self.classes = Counter()
         self.samples = []
         self.failures = {}  # bucket -> {"case":..., "msg":..., "count": n}
@@ -231,7 +235,10 @@ def evaluate(sub, case, res, want_samples=3):
     res.evals += r.evals
     for c in r.classes:
         res.classes[c] += 1
-    if r.digests is not None:
+    if r.count is not None:
+        if r.count:
+            res.case_counts[digest(case)] = r.count
+    elif r.digests is not None:
         res.nontrivial.update(r.digests)
     elif r.nontrivial:
         res.nontrivial.add(digest(case))
